@@ -220,8 +220,8 @@ static void collect_cb(const struct gstream *g, void *ctx)
 	(void)ctx;
 	if (g->blen > collect_max_s || g->blen < collect_min_s)
 		return;
-	if (collect_every && (collect_ctr++ % collect_every))
-		return;
+	if (collect_every && !(collect_min_s && strstr(g->desc, "long-header")) && (collect_ctr++ % collect_every))
+		return; /* (the long-header streams are all taken in the long pass: layer 1 cuts each at every byte of its header) */
 	struct ri_opts o;
 	memset(&o, 0, sizeof o);
 	static struct ri_result rr;
